@@ -6,7 +6,7 @@ claim("C01", "SSA provenance + who-may-write/who-may-call rules over the resolve
       "metadata-key absorption or a non-document-event absorption; the library never invokes Ack/Commit itself; each observer handler stamps the event's own "
       "seqNo; Checkpoint.Save dumps Checkpoint.SeqNo from the tracked offset under the tracked key; backends write the document they are given under its "
       "vBucket's id; offsets are never mutated after construction. Per-document provenance makes the crash-point quantifier vacuous. NOT decided: consumer "
-      "discipline in calling Ack, server-side handling of the write, durability.", "DESIGN.md §3 C01")
+      "discipline in calling Ack, server-side handling of the write, durability. ALSO DECIDED (added after the second round of seeded changes): a missing checkpoint is concluded only from evidence (file: exactly os.ErrNotExist, Couchbase: after read and parse).", "DESIGN.md §3 C01")
 
 claim("C02", "SSA mapping tables (writer/reader composition), guard sets by dominance, order-abstraction evaluation",
       "Decides the tables behind 'resume exactly where the checkpoint says': the stream request's arguments keyed by gocbcore's parameter names; the Save "
@@ -14,7 +14,7 @@ claim("C02", "SSA mapping tables (writer/reader composition), guard sets by domi
       "tracked entry dumped; loaded documents never modified in place; same document type, distinct JSON tags, same xattr path and id expressions on both sides; "
       "file backend reads the file/map type it writes; the 'latest' branch selected by exactly !exist && AutoReset==latest and filled from the vBucket high "
       "seqNo and failover entry 0; requested end = InitializeLatestSeqNo (parameter iff finite else 2^64-1, exhaustive); read-only wrapper performs no call in "
-      "Save/Clear and is installed under exactly Metadata.ReadOnly. NOT decided: sonic's/server's 64-bit fidelity (trusted), custom Metadata implementations.",
+      "Save/Clear and is installed under exactly Metadata.ReadOnly. NOT decided: sonic's/server's 64-bit fidelity (trusted), custom Metadata implementations. ALSO DECIDED (added after the second round of seeded changes): 'no checkpoint' is concluded only from evidence (file backend: exactly os.ErrNotExist, other read errors returned; Couchbase backend: exist only after read and parse); the re-request after a rollback keeps the requested end.",
       "DESIGN.md §3 C02")
 
 claim("C04", "exhaustive finite order-abstraction evaluation of guards over SSA + who-may-write",
@@ -22,7 +22,7 @@ claim("C04", "exhaustive finite order-abstraction evaluation of guards over SSA 
       "atoms (comparison-only control is enforced, so the case split is exhaustive): Store <=> inRange && (!found || new >= cur), TrackOffset(vbID, offset) "
       "immediately after every Store and never otherwise, no effect when out of range; In <=> Start <= vbID <= End; Open derives the range from the first/last "
       "assigned vBucket; every map operation of the writer is keyed by its vbID parameter; no other writer exists. NOT decided: concurrent acknowledgements of the "
-      "same vBucket (excluded by the property), memory-model visibility of plain flags.", "DESIGN.md §3 C04")
+      "same vBucket (excluded by the property), memory-model visibility of plain flags. ALSO DECIDED (added after the second round of seeded changes): every wrapper's Offset is a fresh literal of its own event and no offset value is reused in a long-lived location; the dump writes the tracked seqNo for every tracked vBucket.", "DESIGN.md §3 C04")
 
 claim("C05", "order-abstraction evaluation of the dirty protocol, dominance/path rules, error-flow taint, narrow lockset",
       "Decides the dirty-tracking protocol: every dirtying settle raises the save flag; the dirty mark is written iff the position moved with dirty=true and is "
@@ -39,7 +39,7 @@ claim("C03", "call-chain shape rules + exhaustive order-abstraction evaluation o
       "!beforeSkipWindow && inSnapshot and branches on nothing else (any other predicate = undocumented filter); deliver->listener once with the received event "
       "iff !closed; listener arm->forwarder once; forwarder->ConsumeEvent(payload) once iff !IsMetadata; skip-window predicate is strict SkipUntil.After; "
       "collection name = configured entry | _default; wrappers embed the handler's own event copy with SeqNo/CollectionName/EventTime=Unix(Cas/1e9) from it; no "
-      "gocbcore event field is ever written; emitted types = listener arms + {SnapshotMarker, OSOSnapshot}. NOT decided: what gocbcore/the server deliver.",
+      "gocbcore event field is ever written; emitted types = listener arms + {SnapshotMarker, OSOSnapshot}. NOT decided: what gocbcore/the server deliver. ALSO DECIDED (added after the second round of seeded changes): the listener forwards depending on the event type only (no other predicate); IsMetadata matches exactly the two reserved prefixes; data/control classification of the gate's isControl argument per handler.",
       "DESIGN.md §3 C03")
 
 claim("C06", "dominance rules on SSA + exhaustive order-abstraction evaluation of the membership check + module-wide immutability scan",
@@ -47,7 +47,7 @@ claim("C06", "dominance rules on SSA + exhaustive order-abstraction evaluation o
       "vbUUID read from the observer inside that region; the check returns true iff snapshot!=nil && Start<=seq<=End and panics otherwise (never false) for all "
       "inputs; snapshot markers/offsets are replaced, never mutated (module-wide store scan; every currentSnapshot assignment is a fresh literal from the event); "
       "the branch id is written only by SetVbUUID under err==nil of an open-stream callback with failOverLogs[0].VbUUID; the document is built field by field "
-      "from one offset. NOT decided: well-formedness of the server's markers.", "DESIGN.md §3 C06")
+      "from one offset. NOT decided: well-formedness of the server's markers. ALSO DECIDED (added after the second round of seeded changes): snapshot markers and seqno-advanced events pass the gate as control events (never dropped by catch-up), data events never do; the initial position of a fresh session carries failover entry 0's vbUUID.", "DESIGN.md §3 C06")
 
 claim("C07", "exhaustive order-abstraction evaluation (gate, threshold, minimum over 0..4 copies, IsOutdated) + dominance rules on the observe callback",
       "Decides the rollback-mitigation gate: every handler except End/OSOSnapshot calls canForward(own seqNo) before any other effect; canForward waits iff "
@@ -55,13 +55,13 @@ claim("C07", "exhaustive order-abstraction evaluation (gate, threshold, minimum 
       "max(old,new) ignoring 0 and is the only writer; getMinSeqNo = 0 if all copies absent, 0 on vbUUID disagreement, else the min of present copies - "
       "exhaustively for 0..4 copies (18 577 abstract states; 5 in thorough); observe-callback state changes and dispatch dominated by !closed && same "
       "generation && err==nil; IsOutdated exact; dispatch routed to observers[vbID]; close releases without delivering. NOT decided: polling latency, "
-      "OBSERVE_SEQNO itself.", "DESIGN.md §3 C07")
+      "OBSERVE_SEQNO itself. ALSO DECIDED (added after the second round of seeded changes): cluster-map generations compared lexicographically on (epoch, rev) and installed/reconfigured iff readable and (none yet or newer) - exhaustive; isControl=true exactly for snapshot marker and seqno-advanced.", "DESIGN.md §3 C07")
 
 claim("C08", "SSA argument tables + exhaustive order-abstraction evaluation of the failover scan (0..4 entries) and of the catch-up state machine",
       "Decides how a rollback is honoured: OpenStream returns the rollback path's result under the DCPRollbackError test with failed<-offset.SeqNo, "
       "rollback<-err.SeqNo, same end/vbID/observer/options; second request start=snapStart=snapEnd<-R, end<-latest; branch = vbUUID of the lowest-index "
       "failover entry with SeqNo<=R (0 if none) for every ordering of 0..4 entries and R; SetVbUUID(failOverLogs[0].VbUUID)/SetCatchup(failed) under err==nil "
-      "only; catch-up filter skip <=> need && seq<=F, need' = need && seq<F, never consulted for control events. NOT decided: the server's R and log content.",
+      "only; catch-up filter skip <=> need && seq<=F, need' = need && seq<F, never consulted for control events. NOT decided: the server's R and log content. ALSO DECIDED (added after the second round of seeded changes): both stream requests forward the server's error on every error path; control/data classification of the gate argument per handler.",
       "DESIGN.md §3 C08")
 
 claim("C09", "SSA shape rules (induction variables, sub-slice sweep), origin tables, effect/purity summary",
@@ -70,7 +70,7 @@ claim("C09", "SSA shape rules (induction variables, sub-slice sweep), origin tab
       "overlaps between consecutive chunks; a member takes exactly ChunkSlice(all, TotalMembers)[MemberNumber-1] from one GetInfo() value and returns that slice "
       "itself (no cache/copy); ChunkSlice and Get are pure. NOT decided and not claimed: non-emptiness, exact cover of 0..N-1 and balance within one - arithmetic "
       "facts about ((n-1)/c)+1 and c-(m*c-n) that need symbolic algebra or enumeration (other technique families); a change that only alters those formulas is "
-      "not detected.", "DESIGN.md §3 C09, §5")
+      "not detected. ALSO DECIDED (added after the second round of seeded changes): the ownership test In <=> Start<=vb<=End (exhaustive) with range = [first,last] of the chunk and the serial close loop running Start..End inclusive.", "DESIGN.md §3 C09, §5")
 
 claim("C10", "dominance rules, reflection-contract typing, SSA formula tables, exhaustive order-abstraction evaluation of IsChanged",
       "PERIPHERY ONLY. Decides necessary structural conditions of consistent numbering: every membership publication is dominated by IsChanged(current)=true on "
@@ -78,7 +78,7 @@ claim("C10", "dominance rules, reflection-contract typing, SSA formula tables, e
       "func(*membership.Model); numbering formulas of the four mechanisms (self index+1/len with panic when absent; leader 1, follower at index i of the "
       "join-ordered list gets i+2, total len+1; config; ordinal+1) incl. RPC payload tables; both comparators ascending in join time; the Couchbase membership "
       "records the acted-on view only after the change decision and restarts the round on a CAS conflict. NOT decided: agreement/convergence between members, "
-      "bounded admission/removal, distinctness under concurrent joins (distributed, timed).", "DESIGN.md §3 C10, §5")
+      "bounded admission/removal, distinctness under concurrent joins (distributed, timed). ALSO DECIDED (added after the second round of seeded changes): a member takes chunk MemberNumber-1 of TotalMembers; every Service is registered with the join time of the same identity and heart-beats repeat the join time fixed at registration; the membership compared against tracks what was announced.", "DESIGN.md §3 C10, §5")
 
 claim("C11", "path-language rules over SSA CFG with inlining (callback bracketing, lock hand-off), dominance rules, timer idiom rule",
       "PERIPHERY ONLY. Decides necessary structural conditions of rebalance convergence: callbacks bracketed on every path of Rebalance (Close inlined) and of "
@@ -86,7 +86,7 @@ claim("C11", "path-language rules over SSA CFG with inlining (callback bracketin
       "balancing<-true dominates Close(false), the stop channel is closed only under !balancing, Open returns before balancing<-false; after Lock every path arms "
       "exactly one AfterFunc(reopen) which defers Unlock first; Open always asks Get and Load afresh; delay const 0 iff dynamic; a repeated membership is not "
       "announced (IsChanged exact); the bus listener forwards every notification. NOT decided: 'closed once/reopened exactly once per burst on the latest "
-      "membership' and timing relative to the delay.", "DESIGN.md §3 C11, §5")
+      "membership' and timing relative to the delay. ALSO DECIDED (added after the second round of seeded changes): the close covers every assigned vBucket; the discovery recomputes the range from the membership in effect (no cache); the compared membership tracks what was announced.", "DESIGN.md §3 C11, §5")
 
 claim("C12", "exhaustive order-abstraction evaluation of the end listener / reopen loop / End handler + who-may-write rules",
       "Decides classification, counting and the stop token: the end listener evaluated over closeWithCancel x err-nil x 7 error classes x counter result x "
@@ -94,14 +94,14 @@ claim("C12", "exhaustive order-abstraction evaluation of the end listener / reop
       "iff the counter hit 0 && !finishedWithClose; activeStreams written only by Swap(len) in Open and Add(-1) there; Open resets both finished flags first; "
       "openStream uses offsets[vbID]/observers[vbID] read at call time; reopenStream returns at the first success and panics after exactly five failures; End "
       "forwards iff !endClosed; every handler-built offset carries the end bound sampled at open. NOT decided: server-side completeness before the end, races "
-      "between a reopen goroutine and a concurrent Close.", "DESIGN.md §3 C12")
+      "between a reopen goroutine and a concurrent Close. ALSO DECIDED (added after the second round of seeded changes): End never writes the end switch (only CloseEnd does); the counter is set before any stream is opened; the end bound function itself (C02.R5).", "DESIGN.md §3 C12")
 
 claim("C13", "path-order rules, goroutine/stop inventory over the VTA call graph, flag-before-go rule, nil-guard rule on the closed-state field",
       "Decides structural conditions of clean shutdown: teardown order in the close path (HealthCheck.Stop < Client.Close; Unsubscribe < Stream.Close < DcpClose "
       "< Client.Close; final save before close under a blocking lock); in Stream.Close delivery switch < closeAllStreams < end switch < observers=nil with "
       "schedule and mitigation stopped; each of the 9 background loops exits on a flag/channel/context/listener that the close path reaches; running flags are "
       "raised before `go` (defect F3 repaired in /repo); the listener is called iff !closed after the gate; every lifecycle use of observers is nil-guarded - "
-      "violated in Stream.Close itself (known finding K2, listed by obligation key). NOT decided: bounded return time; no event after Close returned (gocbcore).",
+      "violated in Stream.Close itself (known finding K2, listed by obligation key). NOT decided: bounded return time; no event after Close returned (gocbcore). ALSO DECIDED (added after the second round of seeded changes): closeAllStreams covers Start..End inclusive / every tracked position; health-check waits are cancellable; a cancel signal raises closeWithCancel before the close path and Stream.Close receives it.",
       "DESIGN.md §3 C13, §4")
 
 claim("C14", "who-may-call + constant-prefix provenance of every written key, exhaustive evaluation of the filter and of the forwarder's metadata branch, reflection contract",
@@ -110,21 +110,21 @@ claim("C14", "who-may-call + constant-prefix provenance of every written key, ex
       "such a value); IsMetadata <=> valid && (HasPrefix(key, Prefix) || HasPrefix(key, TxnPrefix)) with the writers' constants, looked up under a field name that "
       "is a promoted exported []byte field of the three document wrappers; the forwarder consults IsMetadata(payload) and on that branch calls the position "
       "writer once with dirty=false, leaves the save flag alone and never calls the consumer; getCheckpointID = Prefix+group+const+Itoa(vbID) and panics for "
-      "every group name containing '.'. NOT decided: injectivity of the key as a string function; the closed-loop history argument.", "DESIGN.md §3 C14")
+      "every group name containing '.'. NOT decided: injectivity of the key as a string function; the closed-loop history argument. ALSO DECIDED (added after the second round of seeded changes): absorbed events still advance the position under the writer's exact store condition; TxnPrefix is the protocol's common prefix '_txn:'.", "DESIGN.md §3 C14")
 
 claim("C15", "exhaustive order-abstraction evaluation of the checkpoint-ahead guard, error-flow taint to panic/return with dominance of the continuation, closed-switch rules",
       "Decides the fail-fast guards of start-up: panic <=> stored seqNo > the same vBucket's sampled high seqNo, offset stored exactly otherwise; the errors of "
       "Metadata.Load, GetVBucketSeqNos, GetFailOverLogs, the xattr read (other than key-not-found) and GetCollectionIDs reach a panic/return and the continuation "
       "is dominated by err==nil; each opener spawned by openAllStreams panics on error itself (or records it under err!=nil only), Done after success, "
       "Add(len)/Wait; the metadata, membership and leader-election selections panic on no match; the sequence-number query forwards a failed node's error on "
-      "every error path (defect F4 repaired); bounded reopen then panic. NOT decided: process-level observation of the panic.", "DESIGN.md §3 C15")
+      "every error path (defect F4 repaired); bounded reopen then panic. NOT decided: process-level observation of the panic. ALSO DECIDED (added after the second round of seeded changes): defaults never rewrite a configured type (zero-guarded stores only); openStream returns an error whenever the vBucket has no position.", "DESIGN.md §3 C15")
 
 claim("C16", "SSA descriptor/value/label tables, dominance rule on the unsigned subtraction, exhaustive evaluation of the counters, nil-guard rule",
       "Decides that the exposed numbers are wired to what they claim: every MustNewConstMetric pairs its descriptor field with the origin the property names and "
       "the ranged vBucket label; the discovery metric struct is filled from one GetInfo() value and the selected chunk's first/last element; the unsigned lag "
       "hi-lo is dominated by hi>lo on the same operands, 0 otherwise, total lag is the running sum emitted after the loop; each document handler increments "
       "exactly its own counter once per delivered event and Add* adds 1 to its own field; every send and observers use in Collect is dominated by "
-      "GetObservers()!=nil and the offsets endpoint tests IsOpen; the active-stream count is decremented by final ends only. NOT decided: atomicity of a scrape.",
+      "GetObservers()!=nil and the offsets endpoint tests IsOpen; the active-stream count is decremented by final ends only. NOT decided: atomicity of a scrape. ALSO DECIDED (added after the second round of seeded changes): the discovery metric accessor is a plain accessor; the stream's metric struct is assigned once and the rebalance count only incremented.",
       "DESIGN.md §3 C16")
 
 claim("C17", "control-dependence rules on every defaulting store, override tables keyed by yaml tags, constant-multiplier table of the unit switch",
@@ -147,7 +147,7 @@ claim("C19", "exhaustive abstract evaluation of a health-check round (all ping p
       "exactly on the fifth consecutive failure, no ping after a cancelled wait, no state carried between rounds (a dependence on receiver state makes it "
       "undecided = failing); the only blocking construct in run/performHealthCheck is a select with a ctx.Done() case (no sleep); Start/Stop bodies are entirely "
       "inside their Once.Do, wg.Add(1) before go run, run defers Done first, Stop cancels then waits, Once fields never reassigned. NOT decided: wall-clock "
-      "promptness.", "DESIGN.md §3 C19")
+      "promptness. ALSO DECIDED (added after the second round of seeded changes): a ping counts as failed unless both the data and the management endpoint were found (callback evaluated exhaustively).", "DESIGN.md §3 C19")
 
 claim("C20", "typed inventory of asynchronous call sites, path-language rule on callbacks (resolve-once-before-send, capacity), error-forwarding path rule, deadline provenance through callers",
       "Decides the async-call protocol at all 19 call sites of gocbcore operations returning (PendingOp, error): the completion signal is buffered and Wait = "
@@ -155,4 +155,4 @@ claim("C20", "typed inventory of asynchronous call sites, path-language rule on 
       "within the capacity of channels created in the enclosing call, and feeds every channel the wrapper awaits; the callback's error reaches the wrapper's "
       "result and is forwarded on every path on which it is non-nil; results are dereferenced only under err==nil (defects F4, F5 repaired in /repo); every "
       "operation has its own time.Now-based deadline or a context that is deadline-bearing at every call site (followed through callers and closures). NOT "
-      "decided: gocbcore after Cancel, timing around the deadline.", "DESIGN.md §3 C20, §4")
+      "decided: gocbcore after Cancel, timing around the deadline. ALSO DECIDED (added after the second round of seeded changes): Ping reports success only when both services answered (exhaustive over err x endpoints); the metadata backends propagate every primitive's error.", "DESIGN.md §3 C20, §4")
